@@ -31,6 +31,15 @@ chk("C08","model_checking",
     "Same executions as C06 under a counting global allocator: peak live bytes and the largest single request during open and during the call suite must stay within 128n+8MiB; a refused (>32 GiB) request is recorded before the process aborts.",
     E3NOTE,"exhaustive deviation-bounded exploration with an allocation-counting allocator on the real reader","§3 C08")
 
+chk("C10","fault_enumeration",
+    "For every explored file and muxing history, every stream-call index k of open, of each read_sample and of every muxer call is failed once in every way that kind of call can fail (read: Err, Ok(0); seek: Err; write: Err, Ok(0)) and the library call in progress must return Err(IoError); every single short transfer (1, len/2, len-1 bytes) or Interrupted answer at every call, all pairs on selected files, and the one-byte-everywhere / interrupted-before-every-call schedules must leave the reader's full result digest and the muxer's output bytes identical. Each planned deviation is asserted to have fired.",
+    "Bounded: one fault per execution; pairs of transparent deviations only on the files/histories marked for it; the explored files/histories are a fixed list. Trusted: scripted streams of the harness.",
+    "exhaustive single-fault enumeration over stream-call indices + deviation-bounded (k<=2) short/interrupted transfer schedules on the real reader and muxer","§3 C10")
+chk("C11","fault_enumeration",
+    "Every cut position 0..len of every baseline layout (muxer layout, movie-header-first, fragmented in one stream and as separate segment, extra reference layouts) is opened with the prefix's own length in an isolated worker; open must return (no panic, no hang), and when it succeeds every sample 1..count+1 of every track is Err, None, or identical in bytes and timing to that sample of the complete file.",
+    "Complete over cut positions for the listed files; the files are a fixed list. Ok(None)/Err both count as 'no data'.",
+    "exhaustive enumeration of crash/cut points with a differential oracle against the complete file","§3 C11")
+
 NA={}
 m={"version":1,
    "setup_cmd":"cd harness && CARGO_NET_OFFLINE=true cargo build --offline --release && CARGO_NET_OFFLINE=true cargo build --offline --profile wrapping",
